@@ -3,13 +3,16 @@ import gen_line as GL
 import gen_mapper as GM
 
 BASES = [b"x", b"y", b"foo", b"r\xef\xbf\xbdq", b"svc.req", b"a.b", b"a.b.c", b"my-svc.lat", b"9lives", b"x_sum", b"x_count", b"x_bucket", b"y_sum",
-         b"x_total", b"t", b"caf\xc3\xa9.q", b"a--b"]
+         b"x_total", b"t", b"caf\xc3\xa9.q", b"a--b", b"a|#b", b"cpu\xd9\xa3", b"cpu\xef\xbc\x91", GL.LONG_NAME, GL.LONG_NAME + b"_sum", b"x_count_sum", b"x_sum_bucket"]
 COMP = [b"a", b"b", b"c", b"req", b"lat", b"x", b"y", b"9", b"p-q", b"z_sum", b"z"]
 LKEYS = [b"env", b"job2", b"k_1", b"dc", b"le", b"quantile", b"__x", b"aa"]
-TAGKEYS = [b"env", b"k", b"a.b", b"a-b", b"dc", b"h\xef\xbf\xbdst", b"9k", b"le", b"quantile", b"__name__", b"-_x", b"job2"]
-TAGVALS = [b"prod", b"v", b"1", b"a=b", b"with space", b"caf\xc3\xa9", b"x.y"]
+TAGKEYS = [b"env", b"k", b"a.b", b"a-b", b"dc", b"h\xef\xbf\xbdst", b"9k", b"le", b"quantile", b"__name__", b"-_x", b"job2",
+           "\u0440\u0435\u0433\u0438\u043e\u043d".encode(), "\u043a\u043b\u0430\u0441\u0442\u0435\u0440".encode(), b"shard\xd9\xa3", b"shard_", b"K" * 70,
+           b"a", b"bc", b"ab", b"c"]               # different (sorted) key sets with equal concatenations: {a, bc} and {ab, c}
+TAGVALS = [b"prod", b"v", b"1", b"a=b", b"with space", b"caf\xc3\xa9", b"x.y",
+           b"a", b"ab", b"b", b"bc", b"c", b"abc"]          # the last six: different value tuples with equal concatenations
 SCALES = [None, None, None, 0.5, 2.0, 1000.0, 0.0, -1.0, 0.001]
-TTLS = [0, 0, 10**9, 2 * 10**9, 5 * 10**9, 10 * 10**9]
+TTLS = [0, 0, 10**9, 2 * 10**9, 5 * 10**9, 10 * 10**9, 9223369200 * 10**9]          # the last one: 2562047h, the longest duration YAML can spell
 BUCKETS = [[0.1, 1.0, 10.0], [1.0], [0.005, 0.5, 5.0, float("inf")], [-1.0, 0.0, 1.0], [1e-9, 1e9]]
 QUANTS = [[(0.5, 0.05)], [(0.5, 0.05), (0.9, 0.01), (0.99, 0.001)], [(0.0, 0.1), (1.0, 0.1)], [(0.25, 0.1), (0.75, 0.1)]]
 
@@ -93,15 +96,15 @@ def name_for(rnd, cfg):
     return rnd.choice(BASES)
 
 
-GOODV = [b"1", b"2.5", b"0", b"100", b"1e3", b"0.001", b".5", b"3", b"7", b"1e19", b"18446744073709551615", b"0x1p-2"]
+GOODV = [b"1", b"2.5", b"0", b"100", b"1e3", b"0.001", b".5", b"3", b"7", b"1e19", b"18446744073709551615", b"0x1p-2", b"1e+3", b"2.5E+1", b"0x1p+4"]
 ODDV = [b"-3", b"+4", b"-0", b"+0", b"nan", b"inf", b"-inf", b"1e308", b"4.9e-324", b"NaN", b"+Inf", b"9007199254740993"]
-RATES = [b"1", b"0.5", b"0.1", b"0.25", b"2", b"0", b"-1", b"nan", b"inf", b"0.01", b"0.3"]
+RATES = [b"1", b"0.5", b"0.1", b"0.25", b"2", b"0", b"-1", b"nan", b"inf", b"0.01", b"0.3", b"1.5", b"1.0000000000000002"]
 
 
 def tags_for(rnd, safe):
-    keys = TAGKEYS[:5] + [b"job2"] if safe else TAGKEYS
+    keys = TAGKEYS[:5] + [b"job2", b"a", b"bc", b"ab", b"c", b"shard\xd9\xa3", b"shard_", "\u0440\u0435\u0433\u0438\u043e\u043d".encode(), "\u043a\u043b\u0430\u0441\u0442\u0435\u0440".encode()] if safe else TAGKEYS
     ts = []
-    for _ in range(rnd.choice([0, 0, 1, 2])):
+    for _ in range(rnd.choice([0, 0, 1, 2, 2, 3])):
         ts.append(("kv", rnd.choice(keys), rnd.choice(TAGVALS)))
     if rnd.random() < 0.1:
         ts.append(rnd.choice([("kv", b"", b"v"), ("kv", b"k", b""), ("bare", b"novalue")]))
